@@ -5,6 +5,8 @@
 import HealSparse.Lemmas.Core
 import HealSparse.Lemmas.Coverage
 import HealSparse.Props.C04
+import HealSparse.Lemmas.ApiDense
+import HealSparse.Lemmas.ApiBits
 namespace HS
 namespace C01
 
@@ -140,6 +142,310 @@ theorem clear_spec (c : Cfg) (vc : VCfg V) (s : State V) (h : Inv c vc s)
   | false =>
     have := h.abs_uncovered hp hc
     simp [this]
+
+open ApiDense ApiRanges
+
+/-! ## The protocol against a dense interpreter
+
+The definitions live in Lemmas/ApiDense.lean: `DenseMap` (header + one value per pixel),
+`dUpdate` / `dRanges` (`update_values_pix` on a dense array, validation included), `dstepArgs` /
+`dstep` (the dense interpreter of the lines `cfg`, `upd`, `updr`, `set`, `get`, `vals`),
+`Rel w D` (a world and a dense world agree), `getAnswer` (what a read line answers from a
+dense array). -/
+
+/-! ### (1) the read paths -/
+
+/-- **`get`**: in ANY world, for the map the name resolves to (owning or view), the line is
+    answered from the dense view `m.abs` alone — whatever access path the line names for the
+    real side (`path=getitem_arr|getitem_list|getitem_int`, `ring=`, `lon=`/`lat=`: the model has
+    one reading of a pixel and ignores these keys) — and the world is returned unchanged -/
+theorem get_reads_dense_view (w : World) (a : Args) {n : String} {rest : List String} {m : MapObj}
+    (hn : a.pos = n :: rest) (hg : w.get? n = some m) :
+    opGet w a = (w, getAnswer a m.spord m.npix m.abs m.vc.valid) := by
+  rw [opGet_eq]
+  unfold withMap
+  rw [hn]
+  simp only [hg]
+
+/-- the answer for a resolved pixel list: the values `f p` in the addressed order (`vm=1`: their
+    validity), IndexError as soon as one pixel is outside the sphere (slices are NOT clipped) -/
+theorem getAnswer_pixels (a : Args) (spord npix : Nat) (f : Nat → Val) (valid : Val → Bool)
+    {l : List Nat} (hreq : getReq a spord = some (some l)) :
+    getAnswer a spord npix f valid =
+      if (∃ p ∈ l, npix ≤ p) then "err IndexError"
+      else if a.flag "vm" then showBits (l.map fun p => valid (f p)) else showVals (l.map f) := by
+  unfold getAnswer
+  rw [hreq]
+  simp only []
+  by_cases hb : (l.any fun x => decide (x ≥ npix)) = true
+  · have hex : ∃ p ∈ l, npix ≤ p := by
+      obtain ⟨p, hp, hge⟩ := List.any_eq_true.1 hb
+      exact ⟨p, hp, by simpa using hge⟩
+    rw [if_pos hb, if_pos hex]
+    decide +kernel
+  · have hne : ¬ ∃ p ∈ l, npix ≤ p := by
+      rintro ⟨p, hp, hge⟩
+      exact hb (List.any_eq_true.2 ⟨p, hp, by simpa using hge⟩)
+    rw [if_neg hb, if_neg hne]
+
+/-- the addressed pixels: `pix=` as listed … -/
+theorem getReq_pix (a : Args) (spord : Nat) (h1 : a.get? "slice" = none) (h2 : a.get? "nsord" = none) :
+    getReq a spord = (parseNats (a.getD "pix" "_")).map some := by
+  unfold getReq Args.nat?
+  simp only [h1, h2, Option.bind_none]
+
+/-- … or `slice=lo:hi:st`: Python's `range(lo, hi, st)` (`st = 0` is malformed) -/
+theorem getReq_slice (a : Args) (spord : Nat) {sl : String} {lo hi st : Nat} (h1 : a.get? "slice" = some sl)
+    (hsl : (sl.splitOn ":").map String.toNat? = [some lo, some hi, some st]) (hst : st ≠ 0)
+    (h2 : a.get? "nsord" = none) :
+    getReq a spord = some (some (slicePix lo hi st)) := by
+  unfold getReq Args.nat?
+  have : (st == 0) = false := by simpa using hst
+  simp only [h1, h2, hsl, Option.bind_none, this, Bool.false_eq_true, if_false, Option.map_some]
+
+/-- the slice `lo:hi:st` holds the pixels `lo, lo+st, …` below `hi`, in order; it is empty when
+    `hi ≤ lo` -/
+theorem slice_semantics {lo hi st : Nat} (hst : 0 < st) :
+    (∀ p, p ∈ slicePix lo hi st ↔ lo ≤ p ∧ p < hi ∧ (p - lo) % st = 0) ∧
+    (slicePix lo hi st).length = (hi - lo + st - 1) / st ∧
+    (∀ i, i < (hi - lo + st - 1) / st → (slicePix lo hi st)[i]? = some (lo + i * st)) ∧
+    (hi ≤ lo → slicePix lo hi st = []) :=
+  ⟨mem_slicePix hst, length_slicePix lo hi st, fun i hi' => getElem?_slicePix lo hi st i hi',
+    slicePix_empty hst⟩
+
+/-- **`vals`**: the whole dense array `[m.abs 0, …, m.abs (npix-1)]` -/
+theorem vals_reads_dense_array (w : World) (a : Args) {n : String} {rest : List String} {m : MapObj}
+    (hn : a.pos = n :: rest) (hg : w.get? n = some m) :
+    opVals w a = (w, showVals ((List.range m.npix).map m.abs)) := by
+  rw [opVals_eq]
+  unfold withMap
+  rw [hn]
+  simp only [hg]
+
+/-- a record-field view, in a world reachable by any protocol history, reads its parent's
+    field: `v.abs p = recField i (parent.abs p)` -/
+theorem view_reads_parent_field (lines : List String) {n : String} {v : MapObj} {pn : String} {i : Nat}
+    (hg : (runLines lines).get? n = some v) (hv : v.view = some (pn, i)) :
+    ∃ par, (runLines lines).get? pn = some par ∧ par.WF ∧ v.npix = par.npix ∧
+      ∀ q, q < par.npix → v.abs q = recField i (par.abs q) := by
+  have hw := Good.runLines lines
+  rcases World.get?_cases hg with ⟨_, hnone⟩ | ⟨d, pn', i', par, hd, hdv, hp, hs, hmat, _, _⟩
+  · rw [hnone] at hv; cases hv
+  · obtain ⟨dt, s', _, h1, h2, _, _, _, _, h7⟩ := WFApi.materializeView_ok hmat
+    rw [h7] at hv
+    cases hv
+    have hrec := materializeView_parent_recd hmat
+    obtain ⟨e, he, _, rfl⟩ := World.raw?_mem hp
+    have hpv : e.2.view = none := by
+      cases hvv : e.2.view with
+      | none => rfl
+      | some x =>
+        have := hw.2.1 e he (by rw [hvv]; exact fun h => nomatch h)
+        rw [this] at hrec; cases hrec
+    have hget : (runLines lines).get? pn = some e.2 := by
+      unfold World.get?
+      rw [hp]
+      simp only [hpv]
+    have hwf := (hw.1 e he hpv).1
+    refine ⟨e.2, hget, hwf, ?_, fun q hq => materializeView_abs hwf hmat q hq⟩
+    unfold MapObj.npix MapObj.c
+    rw [h1, h2]
+
+/-! ### (2), (5) the write paths and the headline -/
+
+/-- **one write or read line** of a plain history, in any world that agrees with a dense world:
+    the protocol and the dense interpreter answer alike and still agree afterwards.  For the
+    write lines this says: `upd` (one value broadcast / one value per pixel / `None`; operations
+    `replace`, `add`, `or`, `and`; whatever `via=`, `ring=`, `lon=`/`lat=` name for the real
+    side), `updr` (on EITHER path: the two agree by `C08.api_ranges_agree`, and each agrees with
+    the dense update of the expanded pixels) and `set` (slice assignment, `None` included) are
+    accepted or refused exactly as `dUpdate` / `dRanges` decide from the header, the arguments
+    and the dense values, and an accepted call changes the dense view to `dNew`: at every pixel
+    the reset of `add` over a non-zero sentinel (unset counts as 0) and then the operation, once
+    per occurrence of the pixel in call order (`dNew_single`, `dNew_none`, `dNew_replace_vals`,
+    `dNew_not_mem`; `replace` with a repeated pixel is refused: `dUpdate_replace_dups`). -/
+theorem plain_line_dense {w : World} {D : DenseWorld} (h : Rel w D) {line : String}
+    (hp : plainLine line = true) :
+    Rel (step w line).1 (dstep D line).1 ∧ (step w line).2 = (dstep D line).2 :=
+  rel_step h hp
+
+/-- **the headline.**  For EVERY history of plain lines (`cfg` of any kind, dtype, sentinel and
+    coverage; `upd` / `updr` / `set` with any operation, value form, pixel list, ranges, path;
+    `get` / `vals`; malformed or refused lines included): the world the protocol reaches and the
+    dense world the dense interpreter reaches agree — the same names, the same headers, and
+    every map reads at every pixel what the dense array holds. -/
+theorem reachable_dense (lines : List String) (hp : ∀ l ∈ lines, plainLine l = true) :
+    Rel (runLines lines) (drun lines) :=
+  rel_runLines lines hp
+
+/-- … hence reading after the history, through any read line, is indexing the dense array:
+    any further plain line is answered by the protocol as by the dense interpreter -/
+theorem reachable_dense_answer (lines : List String) (hp : ∀ l ∈ lines, plainLine l = true)
+    (q : String) (hq : plainLine q = true) :
+    (step (runLines lines) q).2 = (dstep (drun lines) q).2 :=
+  (rel_step (rel_runLines lines hp) hq).2
+
+/-- … and every answer ALONG the history agrees too -/
+theorem reachable_dense_answers (lines : List String) (hp : ∀ l ∈ lines, plainLine l = true)
+    (k : Nat) (hk : k < lines.length) :
+    (step (runLines (lines.take k)) lines[k]).2 = (dstep (drun (lines.take k)) lines[k]).2 :=
+  reachable_dense_answer (lines.take k) (fun l hl => hp l (List.mem_of_mem_take hl)) lines[k]
+    (hp _ (List.getElem_mem hk))
+
+/-- the map-level reading of the headline: a name bound after a plain history is bound on the
+    dense side to an array with the same header that holds `m.abs p` at every pixel -/
+theorem reachable_dense_map (lines : List String) (hp : ∀ l ∈ lines, plainLine l = true)
+    {n : String} {m : MapObj} (hg : (runLines lines).get? n = some m) :
+    ∃ d, (drun lines).get? n = some d ∧ m.WF ∧ m.view = none ∧ m.covord = d.covord ∧
+      m.spord = d.spord ∧ m.kind = d.kind ∧ m.sent = d.sent ∧ ∀ p, p < m.npix → m.abs p = d.f p := by
+  have hR := rel_runLines lines hp
+  have hm := hR.maps n
+  rw [hR.get?_eq n] at hg
+  rw [hg] at hm
+  cases hd : (drun lines).get? n with
+  | none => rw [hd] at hm; exact hm.elim
+  | some d =>
+    rw [hd] at hm
+    exact ⟨d, rfl, hm.wf, hm.view, hm.covord, hm.spord, hm.kind, hm.sent, hm.abs⟩
+
+/-! ### (3) never-written pixels read the blank -/
+
+/-- the raw line addresses pixel `p` of the map named `n`: it is an `upd` / `updr` / `set` line
+    on that name whose `pix=` list / `ranges=` rows / `slice=` holds `p` (read off the line) -/
+def hitsLine (n : String) (p : Nat) (line : String) : Bool :=
+  match lineToks line with
+  | [] => false
+  | op :: rest => hits n p (op, parseArgs rest)
+
+/-- along the history from world `w`, every line addressing `(n, p)` was answered something
+    other than `ok` -/
+def NeverWritten (n : String) (p : Nat) : World → List String → Prop
+  | _, [] => True
+  | w, l :: ls => (hitsLine n p l = true → (step w l).2 ≠ "ok") ∧ NeverWritten n p (step w l).1 ls
+
+theorem blankAt_dstep {D : DenseWorld} {n : String} {p : Nat} (h : BlankAt D n p) (line : String)
+    (hh : hitsLine n p line = true → (dstep D line).2 ≠ "ok") : BlankAt (dstep D line).1 n p := by
+  unfold dstep hitsLine at *
+  cases ht : lineToks line with
+  | nil => exact h
+  | cons op rest =>
+    rw [ht] at hh
+    exact blankAt_step h op (parseArgs rest) hh
+
+/-- **never-written pixels read the blank** (`never_written_reads_sentinel` at the driver): after
+    any plain history, a pixel of a map that no ACCEPTED write line addressed (since the world
+    was empty; re-`cfg` of the name makes it blank again anyway) reads the blank cell of the
+    map's kind — the sentinel, the zero row, the blank record -/
+theorem never_written_reads_blank (lines : List String) (hp : ∀ l ∈ lines, plainLine l = true)
+    (n : String) (p : Nat) (hnw : NeverWritten n p {} lines) {m : MapObj}
+    (hg : (runLines lines).get? n = some m) (hpn : p < m.npix) :
+    m.abs p = m.kind.blank m.sent := by
+  have key : ∀ (ls : List String) (w : World) (D : DenseWorld), Rel w D → BlankAt D n p →
+      (∀ l ∈ ls, plainLine l = true) → NeverWritten n p w ls →
+      Rel (ls.foldl (fun w l => (step w l).1) w) (ls.foldl (fun D l => (dstep D l).1) D) ∧
+      BlankAt (ls.foldl (fun D l => (dstep D l).1) D) n p := by
+    intro ls
+    induction ls with
+    | nil => intro w D hR hB _ _; exact ⟨hR, hB⟩
+    | cons l ls ih =>
+      intro w D hR hB hpl hn
+      obtain ⟨r1, r2⟩ := rel_step hR (hpl l List.mem_cons_self)
+      refine ih _ _ r1 (blankAt_dstep hB l fun hh => ?_)
+        (fun l' h' => hpl l' (List.mem_cons_of_mem _ h')) hn.2
+      rw [← r2]
+      exact hn.1 hh
+  obtain ⟨hR, hB⟩ := key lines {} [] rel_empty (fun d hd => by cases hd) hp hnw
+  have hR' : Rel (runLines lines) (lines.foldl (fun D l => (dstep D l).1) ([] : DenseWorld)) := hR
+  have hg' : (runLines lines).raw? n = some m := by rw [← hR'.get?_eq n]; exact hg
+  have hm := hR'.maps n
+  rw [hg'] at hm
+  cases hd : (lines.foldl (fun D l => (dstep D l).1) ([] : DenseWorld)).get? n with
+  | none => rw [hd] at hm; exact hm.elim
+  | some d =>
+    rw [hd] at hm
+    rw [hm.abs p hpn, hB d hd, hm.kind, hm.sent]
+    rfl
+
+/-! ### (4) a call that does not answer `ok` stores nothing -/
+
+/-- In the model every API function is pure (it returns a new object or an error), so NO call
+    can fail after a partial write.  At the driver, in a world reachable by any protocol history:
+    `upd`, `updr`, `set`, in-place `sop` / `bop`, `geom` answering anything but `ok` leave every
+    name resolving to a map with the same configuration, kind, sentinel, arrays and view flag
+    (at most the addressed map's `n_valid` cache is reset); `bits`, `mask`, `inv` return the very
+    world they were given. -/
+theorem failed_call_stores_nothing (lines : List String) (a : Args) :
+    ((opUpd (runLines lines) a).2 ≠ "ok" → SameMaps (opUpd (runLines lines) a).1 (runLines lines)) ∧
+    ((opUpdr (runLines lines) a).2 ≠ "ok" → SameMaps (opUpdr (runLines lines) a).1 (runLines lines)) ∧
+    ((opSet (runLines lines) a).2 ≠ "ok" → SameMaps (opSet (runLines lines) a).1 (runLines lines)) ∧
+    ((opSop (runLines lines) a).2 ≠ "ok" → SameMaps (opSop (runLines lines) a).1 (runLines lines)) ∧
+    ((opBop (runLines lines) a).2 ≠ "ok" → SameMaps (opBop (runLines lines) a).1 (runLines lines)) ∧
+    ((opGeom (runLines lines) a).2 ≠ "ok" → SameMaps (opGeom (runLines lines) a).1 (runLines lines)) ∧
+    ((opBits (runLines lines) a).2 ≠ "ok" → (opBits (runLines lines) a).1 = runLines lines) ∧
+    ((opMask (runLines lines) a).2 ≠ "ok" → (opMask (runLines lines) a).1 = runLines lines) ∧
+    ((opInv (runLines lines) a).2 ≠ "ok" → (opInv (runLines lines) a).1 = runLines lines) := by
+  have hw := Good.runLines lines
+  exact ⟨opUpd_not_ok hw a, opUpdr_not_ok hw a, opSet_not_ok hw a, ApiBits.opSop_not_ok hw a,
+    opBop_not_ok hw a, opGeom_not_ok hw a, ApiBits.opBits_not_ok _ a, opMask_not_ok _ a,
+    opInv_not_ok _ a⟩
+
+/-- `SameMaps` spelled out: same arrays, hence the same value at every pixel -/
+theorem sameMaps_abs {w' w : World} (h : SameMaps w' w) (x : String) {m' : MapObj}
+    (hm : w'.get? x = some m') :
+    ∃ m, w.get? x = some m ∧ m'.abs = m.abs ∧ m'.st = m.st ∧ m'.kind = m.kind ∧ m'.sent = m.sent := by
+  have hx := h x
+  rw [hm] at hx
+  cases hg : w.get? x with
+  | none => rw [hg] at hx; cases hx
+  | some m =>
+    rw [hg] at hx
+    simp only [Option.map_some, Option.some.injEq] at hx
+    refine ⟨m, rfl, ?_⟩
+    obtain ⟨co, so, k, se, st, ca, vi⟩ := m
+    obtain ⟨co', so', k', se', st', ca', vi'⟩ := m'
+    simp only [forgetCache, MapObj.mk.injEq] at hx
+    obtain ⟨rfl, rfl, rfl, rfl, rfl, _, rfl⟩ := hx
+    exact ⟨rfl, rfl, rfl, rfl⟩
+
+/-! ### non-vacuity -/
+
+/-- the answers of the protocol along a history -/
+def answers (lines : List String) : List String :=
+  (lines.foldl (fun (wo : World × List String) l =>
+    let r := step wo.1 l; (r.1, wo.2 ++ [r.2])) ({}, [])).2
+
+/-- the answers of the dense interpreter along it -/
+def danswers (lines : List String) : List String :=
+  (lines.foldl (fun (wo : DenseWorld × List String) l =>
+    let r := dstep wo.1 l; (r.1, wo.2 ++ [r.2])) ([], [])).2
+
+/-- a plain history over three kinds of map: values broadcast / per pixel / `None`, `add` over a
+    non-zero sentinel with a repeated pixel, `replace` with a repeated pixel (refused), a range
+    update on both paths with overlapping rows, slice assignment and slice reads (empty, strided,
+    out of range), a valid mask, a wide mask `or`, out-of-range pixels, malformed lines -/
+def exHistory : List String :=
+  ["cfg a kind=plain dtype=i8 covord=0 spord=1", "cfg f kind=plain dtype=f8 covord=0 spord=1 sentinel=-9999",
+   "cfg w kind=wide maxbits=10 covord=0 spord=1",
+   "upd a pix=3,9,40 val=7", "upd a pix=3,4 vals=1,2", "get a pix=3,4,9,40,0",
+   "upd a pix=3,3,5 val=10 op=add", "get a pix=3,5 via=whatever path=getitem_int",
+   "upd a pix=3,3 val=1", "upd a pix=9 none=1", "get a pix=9,3 vm=1",
+   "updr a ranges=0:6,4:9 val=5 op=add path=slice", "updr a ranges=0:6,4:9 val=5 op=add path=expand",
+   "vals a", "set a slice=40:48:3 val=-1", "get a slice=40:48:1", "get a slice=44:40:1", "get a slice=40:50:4",
+   "set a slice=0:4:1 none=1", "get a slice=0:8:2", "upd a pix=48 val=1", "upd a pix=1 val=1^1",
+   "upd f pix=1,2 vals=1^1,3 ", "upd f pix=1,1 val=1^2 op=add", "get f pix=0,1,2", "get f pix=0,1,2 vm=1",
+   "upd w pix=2 val=b1.2", "upd w pix=2,2 val=b4.0 op=or", "get w pix=2,3", "vals w",
+   "get nope pix=1", "get a", "upd a pix=x val=1", "", "cfg a kind=plain dtype=i4 covord=0 spord=0", "vals a"]
+
+#guard exHistory.all plainLine
+#guard answers exHistory == danswers exHistory
+#guard (answers exHistory).take 12 ==
+  ["ok", "ok", "ok", "ok", "ok", "1,2,7,7,-9223372036854775808", "ok", "21,10", "err ValueError", "ok", "01", "ok"]
+
+/-! never-written pixels read the blank; an accepted write shows through every read line -/
+#guard answers ["cfg a kind=plain dtype=i8 covord=0 spord=1 sentinel=-5", "upd a pix=3 val=7",
+    "upd a pix=4,48 val=9", "updr a ranges=8:10 val=1", "get a pix=4,5,7,10", "get a slice=3:10:5", "get a pix=3,8 vm=1"]
+  == ["ok", "ok", "err IndexError", "ok", "-5,-5,-5,-5", "7,1", "11"]
+
 
 end C01
 end HS
